@@ -44,7 +44,7 @@ CandidateSeq == SetToSortSeq(CandidateIdx, <)
 CompiledIdx == {CandidateSeq[k] : k \in {j \in 1..Len(CandidateSeq) : j % Stride = 1 \/ Stride = 1}}
 
 (* a success method with each data mode, alone and merged with an error method declared first / last *)
-DataModes == <<"plain", "opt", "raw", "rawopt", "inst", "instopt", "none">>
+DataModes == <<"plain", "opt", "raw", "rawopt", "inst", "instopt", "none", "plainO">>       \* plainO: the mandatory typed mode on a parameter of type Option<T>
 DataProg(i) == [id |-> "D" \o ToString(i), family |-> "data",
                 methods |-> << [RM(1, <<"h1">>, "success", "raw", DataModes[i]) EXCEPT !.name = "on_ok"] >>]
 (* the same modes with the attribute's arguments written in the other order: `#[sv::data(opt, raw)]`, `#[sv::data(opt, instantiate)]` *)
@@ -88,6 +88,13 @@ BinPayloadProg(i) ==
     [id |-> "PB" \o ToString(i), family |-> "data",
      methods |-> << [RM(1, <<"h1">>, on, "bin", "none") EXCEPT !.name = "on_ok"] >>]
 
+(* three handler names, one of them shared by two methods and listed *before* a new one: every name still gets an id of its own *)
+IdProg ==
+    LET a == [RM(1, <<"h1", "h2">>, "success", "t2", "none") EXCEPT !.name = "on_ok"]
+        b == [RM(2, <<"h2", "h3">>, "error", "t2", "none") EXCEPT !.name = "on_err"]
+        c == RM(3, <<>>, "always", "t2", "none")
+    IN [id |-> "ID1", family |-> "data", methods |-> <<a, b, c>>]
+
 LegacyProg(i) == [id |-> "L" \o ToString(i), family |-> "legacy",
                   \* L3: the reply method is not called `reply`, and a sudo handler taking a Reply is (a decoy: it must never get a reply)
                   methods |-> << [RM(IF i = 3 THEN 1 ELSE i, <<>>, "always", "raw", "none") EXCEPT !.name = IF i = 3 THEN "on_reply" ELSE "reply"] >>,
@@ -105,7 +112,7 @@ CompiledProgs ==
       \cup {DataProgMerged(i, b) : i \in {1, 3, 5}, b \in BOOLEAN}
       \cup {MixProg(i) : i \in 1..4}
       \cup {NamedPayloadProg(i) : i \in 1..3}
-      \cup {BinPayloadProg(i) : i \in 1..3}
+      \cup {BinPayloadProg(i) : i \in 1..3} \cup {IdProg}
       \cup {LegacyProg(i) : i \in 1..3}))
 
 (* ------------------------------------------------------------ the machine *)
@@ -114,7 +121,7 @@ VARIABLES pi, st, sub, rep, out
 INSTANCE ReplyRT
 
 Init == pi \in 1..Len(Progs) /\ st = "idle" /\ sub = NoSub /\ rep = NoRep /\ out = NoOut
-HandlerUniverse == HNames \cup {"on_ok", "m1", "m2", "m3"}
+HandlerUniverse == HNames \cup {"h3", "on_ok", "m1", "m2", "m3"}
 Next ==
     \/ \E h \in HandlerUniverse, r \in Recvs : BuildSubMsg(h, r)
     \/ \E res \in {"ok", "err"}, c \in DataClasses : Outcome(res, c)
@@ -131,7 +138,7 @@ ASSUME LemmaOrderIndependent
 
 -----------------------------------------------------------------------------
 (* emission *)
-NameChars(n) == CASE n = "h1" -> <<"h","1">> [] n = "h2" -> <<"h","2">> [] n = "m1" -> <<"m","1">> [] n = "m2" -> <<"m","2">>
+NameChars(n) == CASE n = "h1" -> <<"h","1">> [] n = "h2" -> <<"h","2">> [] n = "h3" -> <<"h","3">> [] n = "m1" -> <<"m","1">> [] n = "m2" -> <<"m","2">>
                   [] n = "m3" -> <<"m","3">> [] n = "on_ok" -> <<"o","n","_","o","k">> [] n = "on_err" -> <<"o","n","_","e","r","r">>
 ElabMethodR(m) == m @@ [hids |-> HandlerIds(m)]
 HandlerRow(p, h) ==
